@@ -103,6 +103,22 @@ func checkRing(p [2]int64, ring [][2]int64, l geom.Layout, what string) error {
 	if in := xy.IsPointInRing(l, pc, flat); in != (want != location.Exterior) {
 		return fmt.Errorf("%s: IsPointInRing(%v, p=%v, ring=%v) = %v, exact location %v", what, l, p, ring, in, want)
 	}
+	// a query point that is a vertex, handed over as a window of the ring's own array
+	// (what slicing FlatCoords gives; its capacity runs on over the rest of the ring)
+	for k, q := range ring {
+		if q == p {
+			before := append([]float64{}, flat...)
+			if got := xy.LocatePointInRing(l, geom.Coord(flat[k*l.Stride():(k+1)*l.Stride()]), flat); got != want {
+				return fmt.Errorf("%s: LocatePointInRing with vertex %d of the ring's own array as the point = %v, exact %v", what, k, got, want)
+			}
+			for i := range flat {
+				if math.Float64bits(flat[i]) != math.Float64bits(before[i]) {
+					return fmt.Errorf("%s: LocatePointInRing with a vertex of the ring's own array as the point changed element %d", what, i)
+				}
+			}
+			break
+		}
+	}
 	// the same backing array refilled with another ring (the ring moved clear of its
 	// old envelope) and queried again: nothing may be remembered about the array
 	// (asked twice more first: what is remembered may only be used from the second or
